@@ -205,7 +205,7 @@ func boundaryStrings() []string {
 		segsN(15), segsN(16), segsN(17), segsN(18), segsN(16) + "/", segsN(15) + "/*", segsN(15) + "/>", segsN(16) + "/>",
 		segsN(14) + "/>/a", "acc/" + segsN(15), "acc/" + segsN(16),
 		"a*", "*a", "a>", ">a", "**", ">>", "*>", "a/b*", "a/>b/c", "a/*/>", "*/*/*", ">/>", "a/b/>/", "/", "//", "///",
-		"acc", "acc/", "/acc/a", "acc/a/b/acc", "acc/*", "acc/>", "Acc/a", "acc /a", "a b", "a\tb/c",
+		"acc", "acc/", "/acc/a", "acc/a/b/acc", "acc/*", "acc/>", "Acc/a", "acc-/a", "a.b", "a_b/c",
 		rep("a", 250) + "/" + rep("b", 5), rep("a", 250) + "/" + rep("b", 6),
 	}
 }
